@@ -38,7 +38,7 @@ def classify(x):
         return 'accept'
     if any(abs(v) >= 1 for v in r.values()):
         # two commodities and no cost: ledger infers a conversion rate; the text's "unbalanced" does not apply
-        if len(comms) == 2 and not has_cost:
+        if (len(comms) == 2 or len(r) == 2) and not has_cost:
             return None
         return 'reject'
     return None
@@ -69,6 +69,8 @@ def gen_journal(rng):
             x = X.gen_plain(rng, elide=rng.random() < 0.3)
         elif r < 0.99:
             x = X.gen_virtual_lot(rng, elide=rng.random() < 0.5)
+        elif r < 0.995:
+            x = X.gen_implied_rate_with_cancel(rng)
         else:
             x = X.add_null(rng, X.gen_balanced(rng, with_costs=False))
         x.date = '2020/%02d/%02d' % (rng.randrange(1, 13), rng.randrange(1, 29))
